@@ -7,6 +7,7 @@ class C46(core.Prop):
     drivers = [fsys.DRIVER]
     sizes = {"quick": 800, "thorough": 40000}
     max_workers = 6
+    ready = True
     technique = ("property-based testing (Hypothesis): stateful histories of file operations run on the real file system plugin, every "
                  "observation compared with a reference model `path -> size` (model-based oracle, exact integers)")
     rule = ("Histories of <= 40 operations over <= 5 files on 1-2 disks of one host (mount points disjoint or nested under '/'; capacity "
